@@ -49,11 +49,12 @@ MODULES = ['vq0.sub.mod', 'vq0.other.mod', 'vq1.mod']
 OBJECTS = {
     'vq0.sub.mod': ['fn0', 'fn1', 'K0', 'K0.meth', 'K0.Inner', 'K1', 'consume'],
     'vq0.other.mod': ['fn0', 'consume'],
-    'vq1.mod': ['fn2', 'K0', 'K0.meth', 'consume'],
+    # `lazyfn` is exported through a module-level __getattr__ (PEP 562)
+    'vq1.mod': ['fn2', 'K0', 'K0.meth', 'consume', 'lazyfn'],
 }
 PARAMS = {'fn0': ['a', 'b'], 'fn1': ['a', 'b'], 'fn2': ['a', 'b'],
           'K0': ['a', 'b'], 'K1': ['a', 'b'], 'K0.meth': ['mp'],
-          'K0.Inner': ['x'], 'consume': ['x', 'y']}
+          'K0.Inner': ['x'], 'consume': ['x', 'y'], 'lazyfn': ['a', 'b']}
 
 MOD_SRC = '''
 def fn0(a=0, b=0):
@@ -62,6 +63,8 @@ def fn1(a=0, b=0):
   return _hook(__name__, 'fn1', {'a': a, 'b': b})
 def fn2(a=0, b=0):
   return _hook(__name__, 'fn2', {'a': a, 'b': b})
+def lazyfn(a=0, b=0):
+  return _hook(__name__, 'lazyfn', {'a': a, 'b': b})
 def consume(x=None, y=None):
   return _hook(__name__, 'consume', {'x': x, 'y': y})
 class K0:
@@ -152,8 +155,37 @@ def gen(rng, tier):
       else:
         stmts.append({'k': 'bind', 'imp': imp, 'path': path,
                       'param': rng.choice(PARAMS[path]), 'val': uid[0]})
+    late = None
+    froms = [i for i in imports if i['form'] in ('from', 'from_as', 'import_as')
+             and i['module'] in ('vq0.sub.mod', 'vq0.other.mod')]
+    if froms and rng.random() < 0.3 and len(stmts) >= 2:
+      old_imp = rng.choice(froms)
+      other = 'vq0.other.mod' if old_imp['module'] == 'vq0.sub.mod' \
+          else 'vq0.sub.mod'
+      new_imp = dict(old_imp, module=other)
+      if new_imp['form'] == 'from':
+        new_imp = {'form': 'from_as', 'module': other,
+                   'alias': bound_name(old_imp)}
+      at = rng.randint(1, len(stmts) - 1)
+      # statements after the re-binding import name objects of the OTHER module;
+      # only done when every later use of the name can be switched over
+      switch = []
+      possible = True
+      for st in stmts[at:]:
+        for key in ('imp', 'timp'):
+          if st.get(key) == old_imp:
+            path = st.get('target') if key == 'timp' else (
+                'consume' if st['k'] == 'ref' else st.get('path'))
+            if path in OBJECTS[other]:
+              switch.append((st, key))
+            else:
+              possible = False
+      if possible and switch:
+        for st, key in switch:
+          st[key] = new_imp
+        late = {'imp': new_imp, 'at': at}
     files.append({'name': '/vfs19/f%d.gin' % fi, 'imports': imports,
-                  'stmts': stmts,
+                  'stmts': stmts, 'late_import': late,
                   'include_at': rng.randint(0, len(stmts)) if fi > 0 else None,
                   'parent': rng.randint(0, fi - 1) if fi > 0 else None})
   bad = []
@@ -175,6 +207,8 @@ def file_text(f, files):
       if c['include_at'] is not None and min(c['include_at'],
                                              len(f['stmts'])) == si:
         lines.append("include '%s'" % c['name'])
+    if f.get('late_import') and f['late_import']['at'] == si:
+      lines.append(import_line(f['late_import']['imp']))
     if si < len(f['stmts']):
       s = f['stmts'][si]
       if s['k'] == 'bind':
@@ -208,8 +242,14 @@ def plant(hook):
     g = {'_hook': hook, '__name__': name}
     exec(compile(MOD_SRC, '<%s>' % name, 'exec'), g)  # pylint: disable=exec-used
     for obj in OBJECTS[name]:
-      if '.' not in obj:
+      if '.' not in obj and obj != 'lazyfn':
         setattr(m, obj, g[obj])
+    if 'lazyfn' in OBJECTS[name]:
+      def _module_getattr(attr, fn=g['lazyfn'], modname=name):
+        if attr == 'lazyfn':
+          return fn
+        raise AttributeError('module %r has no attribute %r' % (modname, attr))
+      m.__getattr__ = _module_getattr
     mods[name] = m
   return mods
 
